@@ -1,0 +1,45 @@
+//go:build verif
+
+package tcpassembly
+
+import "time"
+
+// Read-only observation hooks for external conformance checking (build tag "verif").
+// They expose scalar state only and change nothing.
+
+// VerifPagesUsed returns the number of pages currently handed out by this assembler's page cache.
+func (a *Assembler) VerifPagesUsed() int { return a.pc.used }
+
+// VerifConnCount returns the number of connections currently registered in the pool.
+func (p *StreamPool) VerifConnCount() int {
+	p.mu.RLock()
+	defer p.mu.RUnlock()
+	return len(p.conns)
+}
+
+// VerifConnState describes one (unidirectional) connection.
+type VerifConnState struct {
+	Pages    int       // conn.pages as accounted by the assembler
+	Queued   int       // pages actually linked in the out-of-order list
+	Oldest   time.Time // oldest Seen of a queued page (zero if none)
+	Closed   bool
+	LastSeen time.Time
+}
+
+// VerifConns returns the state of every connection in the pool.
+func (p *StreamPool) VerifConns() []VerifConnState {
+	var out []VerifConnState
+	for _, c := range p.connections() {
+		c.mu.Lock()
+		st := VerifConnState{Pages: c.pages, Closed: c.closed, LastSeen: c.lastSeen}
+		for pg := c.first; pg != nil; pg = pg.next {
+			st.Queued++
+			if st.Oldest.IsZero() || pg.Seen.Before(st.Oldest) {
+				st.Oldest = pg.Seen
+			}
+		}
+		out = append(out, st)
+		c.mu.Unlock()
+	}
+	return out
+}
